@@ -946,11 +946,11 @@ theorem mConcat_preserves (P) (hinj : Inj P) (x a0 c r x') (hx : uniformP P x = 
     · split at h
       · -- untyped null receiver
         split at h
-        · simp at h; obtain ⟨rfl, rfl⟩ := h; exact ⟨ha, ha⟩
+        · simp at h; obtain ⟨rfl, rfl⟩ := h; exact ⟨ha, by split <;> assumption⟩
         · split at h
           · split at h
             · simp at h
-            · split at h <;> (simp at h; obtain ⟨rfl, rfl⟩ := h; simp)
+            · split at h <;> (simp at h; obtain ⟨rfl, rfl⟩ := h; refine ⟨by simp, ?_⟩; split <;> simp [hx])
           all_goals simp at h
         · simp at h
       · -- string receiver
